@@ -79,7 +79,7 @@ deriving DecidableEq, Repr
 
 /-- what `handle_packet` does with one datagram, as an abstract input -/
 inductive Inp where
-  | empty                               -- `packet[0]` on an empty slice: panic
+  | empty                               -- empty payload: `packet.first()` is `None`, ignored (fix d7dd60f; was `packet[0]` → panic)
   | data                                -- first byte ≥ 2: DTLS / RTP path (no ICE state involved)
   | undecodable                         -- first byte < 2, `StunMessage::decode` failed
   | indication                          -- decoded, class Indication: ignored
@@ -203,7 +203,7 @@ def handleResponse (s : St) (tx : Bytes) : St × Option Bytes :=
 /-- `handle_packet` -/
 def step (s : St) (sock : Sock) (src : Addr) (i : Inp) : St × Out :=
   match i with
-  | .empty => (s, { panic := true })
+  | .empty => (s, {})
   | .data => (s, { forwarded := true })
   | .undecodable => (s, {})
   | .indication => (s, {})
